@@ -636,6 +636,42 @@ fn check_list(mt: &MType, arms: &[&Pat], cnt: &Cnt, coll: &Collector) {
         if outs.len() >= 2 {
             cnt.nontrivial.fetch_add(1, Ordering::Relaxed);
         }
+        // second form: the match is bound by an unannotated `let`, its arm values are numbers written
+        // without a suffix except the last one (a u8 parameter), so the clauses get their type late
+        if arms.len() >= 2 {
+            let last = arms.len() - 1;
+            let arm_exprs: Vec<(Pat, Expr)> = arms.iter().enumerate().map(|(i, p)| ((*p).clone(), if i == last { var("k") } else { var(&format!("lit_q{i}_")) })).collect();
+            let mut prog = Program::simple_main(vec![("v", mt.ty.clone()), ("k", Ty::u8())], Ty::u8(), vec![let_("r", match_(var("v"), arm_exprs)), expr_stmt(var("r"))]);
+            prog.defs = mt.defs.clone();
+            let n_ids = prog.assign_ids();
+            let mut text2 = print_program(&prog, n_ids).text;
+            for i in 0..last {
+                text2 = text2.replace(&format!("lit_q{i}_"), &(3 * i + 1).to_string());
+            }
+            let case2 = |extra: serde_json::Value| json!({"kind": "match", "source": text2, "extra": extra});
+            let site2 = format!("{site}/let-bound-late-typed-arms");
+            match subject::compile(&text2, Config { register: false, dedup: true }, HashMap::new()) {
+                CompileOutcome::Ok(cp) => {
+                    for v in &dom {
+                        cnt.evals.fetch_add(1, Ordering::Relaxed);
+                        let (i, _) = first_match(v).unwrap();
+                        let expect = Val::u8(if i == last { 200 } else { (3 * i + 1) as u8 });
+                        let real = subject::eval(&cp.circuit, &[v.bits(&mt.defs), Val::u8(200).bits(&mt.defs)]);
+                        if !matches!(&real, RealOutcome::Value(bits) if *bits == expect.bits(&mt.defs)) {
+                            coll.push(Violation::new("C08", site2, "wrong-arm-value", v.show(), case2(json!(null)), format!("scrutinee {}, k = 200: expected {}, got {:?}", v.show(), expect.show(), real)));
+                            return;
+                        }
+                    }
+                }
+                CompileOutcome::Rejected(e) => {
+                    coll.push(Violation::new("C08", site2, "accepted-form-rejected-with-late-typed-arms", "", case2(json!(null)), e));
+                }
+                CompileOutcome::RustPanic(p) => {
+                    coll.push(Violation::new("C08", site2.clone(), "compile-rust-panic", "", case2(json!(null)), p.clone()));
+                    coll.push(Violation::new("C05", site2, "compile-rust-panic", "", case2(json!(null)), p));
+                }
+            }
+        }
     } else if let Some(ws) = witnesses {
         cnt.rejected_nonexh.fetch_add(1, Ordering::Relaxed);
         if !other_errors.is_empty() && all_well_typed {
